@@ -6,6 +6,7 @@ import (
 	"github.com/goghcrow/yae/fun"
 	"github.com/goghcrow/yae/parser/ast"
 	"github.com/goghcrow/yae/parser/lexer"
+	"github.com/goghcrow/yae/parser/pos"
 	"github.com/goghcrow/yae/types"
 	"github.com/goghcrow/yae/val"
 	"github.com/goghcrow/yae/zzverif/sv"
@@ -325,12 +326,14 @@ func refDesugar(e ast.Expr) ast.Expr {
 	switch x := e.(type) {
 	case *ast.GroupExpr:
 		return refDesugar(x.SubExpr)
+	// the debug column of a term is the column of its own token: the operator
+	// for operator sugar, what the parser recorded ('(' '.' '[') otherwise
 	case *ast.UnaryExpr:
-		return ast.Call(ast.Var(x.Name, x.IdentExpr.Pos), []ast.Expr{refDesugar(x.LHS)}, 0, x.Pos)
+		return ast.Call(ast.Var(x.Name, x.IdentExpr.Pos), []ast.Expr{refDesugar(x.LHS)}, pos.DBGCol(x.IdentExpr.Pos.Col), x.Pos)
 	case *ast.BinaryExpr:
-		return ast.Call(ast.Var(x.Name, x.IdentExpr.Pos), []ast.Expr{refDesugar(x.LHS), refDesugar(x.RHS)}, 0, x.Pos)
+		return ast.Call(ast.Var(x.Name, x.IdentExpr.Pos), []ast.Expr{refDesugar(x.LHS), refDesugar(x.RHS)}, pos.DBGCol(x.IdentExpr.Pos.Col), x.Pos)
 	case *ast.TenaryExpr:
-		return ast.Call(ast.Var("if", x.IdentExpr.Pos), []ast.Expr{refDesugar(x.Left), refDesugar(x.Mid), refDesugar(x.Right)}, 0, x.Pos)
+		return ast.Call(ast.Var("if", x.IdentExpr.Pos), []ast.Expr{refDesugar(x.Left), refDesugar(x.Mid), refDesugar(x.Right)}, pos.DBGCol(x.IdentExpr.Pos.Col), x.Pos)
 	case *ast.ListExpr:
 		out := make([]ast.Expr, len(x.Elems))
 		for i, el := range x.Elems {
@@ -356,16 +359,16 @@ func refDesugar(e ast.Expr) ast.Expr {
 			for _, a := range x.Args {
 				args = append(args, refDesugar(a))
 			}
-			return ast.Call(ast.Var(m.Field.Name, m.Field.Pos), args, 0, x.Pos)
+			return ast.Call(ast.Var(m.Field.Name, m.Field.Pos), args, x.DBGCol, x.Pos)
 		}
 		for _, a := range x.Args {
 			args = append(args, refDesugar(a))
 		}
-		return ast.Call(refDesugar(x.Callee), args, 0, x.Pos)
+		return ast.Call(refDesugar(x.Callee), args, x.DBGCol, x.Pos)
 	case *ast.SubscriptExpr:
-		return ast.Subscript(refDesugar(x.Var), refDesugar(x.Idx), 0, x.Pos)
+		return ast.Subscript(refDesugar(x.Var), refDesugar(x.Idx), x.DBGCol, x.Pos)
 	case *ast.MemberExpr:
-		return ast.Member(refDesugar(x.Obj), x.Field, 0, x.Pos)
+		return ast.Member(refDesugar(x.Obj), x.Field, x.DBGCol, x.Pos)
 	}
 	return e
 }
